@@ -19,6 +19,7 @@ import (
 	"fmt"
 	"go/ast"
 	"go/types"
+	"os"
 	"sort"
 	"strings"
 
@@ -376,15 +377,44 @@ func contains(xs []string, x string) bool {
 	return false
 }
 
+// loadMany loads all target packages with ONE go/packages call (the dependency graph is type-checked once).
+func loadMany() map[string]*packages.Package {
+	seen := map[string]bool{}
+	var paths []string
+	for _, tgt := range lockTargets {
+		full := "github.com/yandex/pandora/" + tgt.pkg
+		if !seen[full] {
+			seen[full] = true
+			paths = append(paths, full)
+		}
+	}
+	cfg := &packages.Config{Mode: packages.NeedName | packages.NeedSyntax | packages.NeedTypes | packages.NeedTypesInfo |
+		packages.NeedFiles | packages.NeedImports | packages.NeedDeps, Dir: repo, BuildFlags: []string{"-tags=verif"}}
+	pkgs, err := packages.Load(cfg, paths...)
+	if err != nil {
+		fmt.Fprintln(os.Stderr, "load:", err)
+		os.Exit(1)
+	}
+	out := map[string]*packages.Package{}
+	for _, p := range pkgs {
+		if len(p.Errors) > 0 {
+			fmt.Fprintln(os.Stderr, "load errors:", p.PkgPath, p.Errors)
+			os.Exit(1)
+		}
+		out[p.PkgPath] = p
+	}
+	return out
+}
+
 func locksExtra(t *tr) string {
 	var all []lockRow
-	loaded := map[string]*packages.Package{}
+	loaded := loadMany()
 	for _, tgt := range lockTargets {
 		full := "github.com/yandex/pandora/" + tgt.pkg
 		p := loaded[full]
 		if p == nil {
-			p = load(full)
-			loaded[full] = p
+			t.errs = append(t.errs, fmt.Sprintf("package %s not loaded", full))
+			continue
 		}
 		s := &lockScan{t: t, p: p, tgt: tgt, fields: map[string]*types.Var{}, vars: map[types.Object]string{}}
 		if tgt.typ != "" {
